@@ -45,10 +45,15 @@ CLAIMED.update({
                           'families, core identifiers, auto_fence, crash / restart / partition budgets.'),
     'C02': cluster('C02', 'Every published Supvisors state change follows the documented graph (literal, not read from '
                           'the code), master-driven states need a running Master and slaves only follow, under user '
-                          'restart / shutdown / end_sync requests and all three failure strategies.'),
+                          'restart / shutdown / end_sync requests (also at every micro-step after a Master loss, and '
+                          'requested re-entrantly from inside the entry action of DISTRIBUTION) and all three failure '
+                          'strategies.'),
     'C07': cluster('C07', 'Instance state graph, accuracy (FAILED needs a tick timeout, an XML-RPC failure or a '
                           'restart), completeness after every local tick, fencing rule, for inactivity_ticks 2-3, '
-                          'both auto_fence values, crashes, restarts faster than detection, partitions.'),
+                          'both auto_fence values, crashes, restarts faster than detection (a TICK counter going '
+                          'backwards makes the peer overdue at once), partitions; the processes of a lost instance '
+                          'are displayed FATAL by those who knew them running there (ReplicaMon, at every quiescent '
+                          'step of runs with process activity).'),
     'C08': cluster('C08', 'Terminal classification after fair quiet rounds: every run ends Settled or in a listed '
                           'known class (TLA+ predicates), plus "no decision refused for ever"; includes real '
                           'CONCILIATION checkpoints with every single fault injected.'),
